@@ -143,6 +143,17 @@ def long_lived_node(rule_name, element, kids):
     return n, False
 
 
+_LONG_LIVED_RULES = {}
+
+
+def long_lived_rule(rule_name):
+    """One Rule object per rule that lives as long as the process (a caller keeping `r = get_rule(name)` around)."""
+    r = _LONG_LIVED_RULES.get(rule_name)
+    if r is None:
+        r = _LONG_LIVED_RULES[rule_name] = mrule.Rule(rule_name)
+    return r
+
+
 def validate_as(rule_name, node, errs=None, via="auto"):
     """Runs the real single-node validation.  via='node' -> validate.node (needs a mapped name);
     via='rule' -> Rule(rule_name).validate_rule."""
